@@ -1,12 +1,273 @@
-"""C02 — evaluation matches the reference semantics: values, control flow, effect order."""
-from . import refsem
+"""C02 — evaluation matches the reference semantics: values, control flow, effect order.
+Two models, both tied on every run: the reference evaluator RefSem.v (checks/refsem.py) and the pure
+model of the data builtins Builtins.v (stage `builtins` below: harness/cmd/c02b vs extracted beval)."""
+import json
+import os
+import re
+import sys
+
+from . import common, refsem
+
+
+# ---------------------------------------------------------------- builtins stage
+def _tokens(s):
+    return re.findall(r"[()\[\]]|[^\s()\[\]]+", s)
+
+
+def _parse(toks, i=0):
+    """prefix form -> nested python lists (atoms are strings); brackets kept as ['[', ...]"""
+    t = toks[i]
+    if t == "(":
+        out, i = [], i + 1
+        while toks[i] != ")":
+            e, i = _parse(toks, i)
+            out.append(e)
+        return out, i + 1
+    if t == "[":
+        out, i = ["["], i + 1
+        while toks[i] != "]":
+            e, i = _parse(toks, i)
+            out.append(e)
+        return out, i + 1
+    return t, i + 1
+
+
+def _show(e):
+    if isinstance(e, str):
+        return e
+    if e and e[0] == "[":
+        return "[" + " ".join(_show(x) for x in e[1:]) + "]"
+    return "(" + " ".join(_show(x) for x in e) + ")"
+
+
+def _is_exp(e):
+    return isinstance(e, list) and e and e[0] in ("L", "Q", "V", "let", "if", "call")
+
+
+def _subexps(e):
+    if e[0] == "call":
+        return list(range(2, len(e)))
+    if e[0] in ("let", "if"):
+        return list(range(1, len(e)))
+    return []
+
+
+def _closed(e, bound=0):
+    if e[0] == "V":
+        return int(e[1]) < bound
+    if e[0] == "let":
+        return _closed(e[1], bound) and _closed(e[2], bound + 1)
+    return all(_closed(e[i], bound) for i in _subexps(e))
+
+
+def _shrink_value(v):
+    """smaller values: drop an element of a list / array, replace by an element"""
+    out = []
+    if isinstance(v, list) and v and v[0] == "[":
+        for i in range(1, len(v)):
+            out.append(v[:i] + v[i + 1:])
+            out.append(v[i])
+    elif isinstance(v, list) and v and v[0] == "P":
+        out += [v[1], v[2]]
+        for x in _shrink_value(v[2]):
+            out.append(["P", v[1], x])
+        for x in _shrink_value(v[1]):
+            out.append(["P", x, v[2]])
+    return out
+
+
+def _reductions(e):
+    """one-step reductions of an expression (smaller candidates)"""
+    out = []
+    for i in _subexps(e):
+        out.append(e[i])                                   # a sub-expression instead of the whole
+        for r in _reductions(e[i]):
+            out.append(e[:i] + [r] + e[i + 1:])            # reduce inside
+        if e[0] == "call":
+            out.append(e[:i] + e[i + 1:])                  # drop an argument
+    if e[0] in ("L", "Q"):
+        for v in _shrink_value(e[1]):
+            out.append([e[0], v])
+    if e[0] == "let" and e[1][0] in ("L", "Q"):
+        pass
+    return [x for x in out if _closed(x)]
+
+
+def _size(e):
+    return len(_show(e))
+
+
+def _run_batch(c, exe, model_exe, forms, tag):
+    """evaluate prefix forms, each in a fresh interpreter, and on the model: list of (impl, model, source)"""
+    sub = os.path.join(common.BUILD, "C02b.%s.in" % tag)
+    cases = os.path.join(common.BUILD, "C02b.%s.cases" % tag)
+    with open(sub, "w") as f:
+        f.write("\n".join(forms) + "\n")
+    rc, out = common.sh([exe, "--seed", "1", "--tier", c.tier, "--out", cases, "--stats", cases + ".stats", "--sub", sub],
+                        cwd=common.BUILD, timeout=600, env=common.env_go())
+    if rc != 0:
+        return None
+    mout = cases + ".model"
+    rc, err = common.run_model(model_exe, cases, mout)
+    if rc != 0:
+        return None
+    res = []
+    for (cid, inp, obs, src, model) in _joined(cases, mout):
+        res.append((obs, model, src))
+    return res
+
+
+def _joined(cases, mout):
+    with open(cases) as f, open(mout) as g:
+        for lc, lm in zip(f, g):
+            a = lc.rstrip("\n").split("\t")
+            b = lm.rstrip("\n").split("\t")
+            if a[0] != b[0]:
+                raise RuntimeError("case/model id mismatch %r %r" % (a[0], b[0]))
+            a += [""] * (4 - len(a))
+            yield a[0], a[1], a[2], refsem.unesc(a[3]), (b[1] if len(b) > 1 else "")
+
+
+def _differs(impl, model):
+    if model == "UNSPEC" or model.startswith("BADINPUT") or impl == "BUDGET":
+        return False
+    return impl != model
+
+
+def builtins_stage(c, _model_exe_refsem=None, replay=None):
+    """Correspondence of the real data builtins with the extracted pure model beval (Builtins.v).
+    Returns the number of property violations reported."""
+    if c.replay_in and not replay:
+        return 0          # replay of a RefSem counterexample: this stage is not concerned
+    rc, out, model_exe = common.build_ocaml("C02b")
+    if rc != 0:
+        c.log("builtins: extraction/ocaml build failed:\n" + out[-2000:])
+        c.proof_break = c.proof_break or {"kind": "extraction-failed (Builtins.v)", "log": out[-2000:]}
+        return 0
+    rc, out, exe = common.build_go("c02b")
+    if rc != 0:
+        c.violation({"kind": "harness-build-failed (c02b)", "log": out[-3000:]}, no_input=True, tag="build")
+        return 0
+    cases = os.path.join(common.BUILD, "C02b.cases")
+    stats = os.path.join(common.BUILD, "C02b.stats")
+    args = [exe, "--seed", str(c.seed), "--tier", c.tier, "--out", cases, "--stats", stats]
+    if replay:
+        args += ["--replay", replay]
+    rc, out = common.sh(args, cwd=common.BUILD, timeout=1500, env=common.env_go())
+    if rc != 0:
+        c.log("builtins harness failed rc=%s: %s" % (rc, out[-1500:]))
+        c.violation({"kind": "harness-crashed (c02b)", "rc": rc, "log": out[-3000:]}, no_input=(rc == 124), tag="crash")
+        return 0
+    mout = os.path.join(common.BUILD, "C02b.model")
+    rc, err = common.run_model(model_exe, cases, mout)
+    if rc != 0:
+        c.log("builtins model runner failed: " + err)
+        c.proof_break = c.proof_break or {"kind": "model-runner-failed (c02b)", "log": err}
+        return 0
+    n = agree = unspec = errs = 0
+    fails, panics = [], []
+    for (cid, inp, obs, src, model) in _joined(cases, mout):
+        n += 1
+        if obs == "PANIC":
+            panics.append((cid, inp, obs, model, src))
+        elif model == "UNSPEC":
+            unspec += 1
+        elif _differs(obs, model):
+            fails.append((len(inp), cid, inp, obs, model, src))
+        else:
+            agree += 1
+            errs += 1 if obs == "ERR" else 0
+    st = json.load(open(stats)) if os.path.exists(stats) else {}
+    c.coverage["builtins"] = {
+        "model": "coq/Model/Builtins.v beval (extracted) vs EvalString on generated builtin-call trees",
+        "compared": n, "agree": agree, "agree_both_error": errs, "model_declined_unspecified": unspec,
+        "disagreements": len(fails), "panics": len(panics),
+        "distinct_nontrivial": st.get("distinct_nontrivial"), "distribution": st.get("distribution"),
+        "streams": "exh1 (every builtin on every value of a 31-value boundary set), exh2 (19 binary builtins on all ordered pairs), truthy, random typed trees (depth<=4, let/cond, 4% ill-typed), sharing probes (a sequence bound once, 1-3 operations on it, results AND the original inspected)",
+    }
+    viol = 0
+    for (cid, inp, obs, model, src) in panics[:2]:
+        viol += 1
+        c.violation({"kind": "builtins: the interpreter panicked on a builtin-call tree", "stream": "builtins", "source": src, "prefix": inp,
+                     "implementation": obs, "model": model,
+                     "replay": "bin/check C02 --replay <this file>"})
+    if fails:
+        fails.sort()
+        seen = set()
+        for (_, cid, inp, obs, model, src) in fails[:40]:
+            if viol >= 3:
+                break
+            cur, _ = _parse(_tokens(inp))
+            cur_obs, cur_model, cur_src = obs, model, src
+            if not replay:
+                # is it reproducible in a fresh interpreter?  then minimise greedily
+                r = _run_batch(c, exe, model_exe, [inp], "re")
+                if r is None:
+                    continue
+                if not _differs(r[0][0], r[0][1]):
+                    # depends on what earlier programs left behind in the shared interpreter
+                    c.coverage["builtins"].setdefault("not_reproduced_fresh", 0)
+                    c.coverage["builtins"]["not_reproduced_fresh"] += 1
+                    continue
+                cur_obs, cur_model, cur_src = r[0]
+                for _round in range(25):
+                    cands = sorted(set(_show(x) for x in _reductions(cur)), key=len)[:400]
+                    if not cands:
+                        break
+                    rs = _run_batch(c, exe, model_exe, cands, "shr")
+                    if rs is None:
+                        break
+                    best = None
+                    for form, (i2, m2, s2) in zip(cands, rs):
+                        if _differs(i2, m2) and len(form) < _size(cur):
+                            best = (form, i2, m2, s2)
+                            break
+                    if best is None:
+                        break
+                    cur, _ = _parse(_tokens(best[0]))
+                    cur_obs, cur_model, cur_src = best[1], best[2], best[3]
+            key = _show(cur)
+            if key in seen:
+                continue
+            seen.add(key)
+            viol += 1
+            c.violation({"kind": "builtins: the real interpreter and the pure builtin model (Builtins.v beval) disagree on the value / error of a builtin-call tree",
+                         "stream": "builtins", "source": cur_src, "prefix": key, "implementation": cur_obs, "model": cur_model,
+                         "specification": cur_model, "original_case": {"id": cid, "source": src, "implementation": obs, "model": model},
+                         "count_disagreements": len(fails),
+                         "value_format": "I<int> F<float64 bits> C<rune> S<hex bytes> Y<hex symbol name> Bt Bf N (P head tail) [array] FN:<builtin>; ERR = the call returns an error",
+                         "replay": "bin/check C02 --replay <this file>   (evaluates \"prefix\" rendered as source in a fresh interpreter and on the model)"})
+        if viol == 0 and c.coverage["builtins"].get("not_reproduced_fresh"):
+            # a disagreement that needs the state left by earlier programs: report the first one unminimised
+            (_, cid, inp, obs, model, src) = fails[0]
+            viol += 1
+            c.violation({"kind": "builtins: disagreement that appears only after earlier programs ran in the same interpreter (a builtin changed a shared value?)",
+                         "stream": "builtins", "source": src, "prefix": inp, "implementation": obs, "model": model, "specification": model})
+    return viol
+
+
+TRUSTED = [
+    "the reference evaluator coq/Model/RefSem.v is hand-written (it is the specification of C02); the compiler+VM of /repo are tied to it by the correspondence run on generated programs, not by a proof over the Go source",
+    "the pure builtin model coq/Model/Builtins.v is hand-written after functions.go/listutils.go/arrayutils.go/strutils.go/numerictower.go/comparisons.go; it is tied to the real builtins by the correspondence run of harness/cmd/c02b (values and errors of builtin-call trees over boundary data), not by a proof over the Go source",
+    "builtins outside the two models (hashes, printing of floats and chars, slices beyond the length, ordering of distinct symbols, non-integer indices) are not generated or are declined by the model (outcome UNSPEC, counted)",
+    "the step budget of the harness (4000 VM instructions) and the fuel of the model (300) bound the programs compared",
+]
 
 
 def main(argv):
-    refsem.run("C02", "c02", argv, [
-        "the reference evaluator coq/Model/RefSem.v is hand-written (it is the specification of C02); the compiler+VM of /repo are tied to it by the correspondence run on generated programs, not by a proof over the Go source",
-        "builtins outside the modelled core (floats, chars, hashes, string functions, rest on arrays, non-integer indices) are not generated or are declined by the model (outcome UNSPEC, counted)",
-        "the step budget of the harness (4000 VM instructions) and the fuel of the model (300) bound the programs compared",
-    ], {
+    # replay of a builtins counterexample: only that stage
+    if "--replay" in argv:
+        path = argv[argv.index("--replay") + 1]
+        try:
+            obj = json.load(open(path))
+        except Exception:
+            obj = {}
+        if obj.get("stream") == "builtins":
+            c = common.Check("C02", argv)
+            c.proof_break = None
+            builtins_stage(c, replay=path)
+            c.finish("proof")
+            return
+    refsem.run("C02", "c02", argv, TRUSTED, {
         "tco-by-name": lambda r: r.get("defn_rebinds_and_calls_its_own_name") and not r.get("disagrees_also_without_self_tail_call", True),
-    })
+    }, extra=builtins_stage)
